@@ -979,8 +979,42 @@ class _Sub:
         return getattr(self._ctx, k)
 
 
+def ensure_tables(ctx):
+    """setup.sh regenerates coq/gen/*.v outside the build lock, so a concurrent check of another tree can replace
+    C18Tables.v between our generation and our build.  Make sure what was compiled is the table of the tree under test."""
+    for attempt in range(3):
+        try:
+            want = T1.generate()
+        except Exception as e:  # noqa  fail closed: the generator cannot read this tree
+            ctx.notes.append(f"gen_c18 cannot read the tree under test: {e!r}")
+            return
+        try:
+            have = open(T1.OUT).read()
+            vo = os.path.join(lib.COQ, "gen", "C18Tables.vo")
+            fresh = os.path.getmtime(vo) >= os.path.getmtime(T1.OUT)
+        except OSError:
+            have, fresh = None, False
+        if have == want and fresh:
+            return
+        ctx.notes.append("coq/gen/C18Tables.v was regenerated from another tree by a concurrent run; rebuilding")
+        # regenerate and build while holding the build lock (setup.sh generates before it takes the lock)
+        cmd = ["flock", os.path.join(lib.COQ, ".build.lock"), "bash", "-c",
+               f'PYTHONPATH="{lib.REPO}/src:{lib.VERIF}" {lib.PY} -W ignore harness/gen_c18.py && '
+               f'timeout 1500 make -C coq -j{lib.JOBS} Properties/C18.vo']
+        rc, out = lib.run(cmd, timeout=2400, cwd=lib.VERIF, env={"VERIF_REPO": lib.REPO})
+        ctx.build_ok = rc == 0
+        ctx.build_log = out[-8000:]
+        if ctx.build_ok:
+            lib.audit(ctx, "C18.v")
+        else:
+            ctx.proof = {"file": "coq/Properties/C18.v", "obligations": 1, "discharged": 0, "theorems": [], "verdicts": [],
+                         "problems": ["coq build failed: " + ctx.build_log[-1200:]]}
+
+
 def run(ctx):
     import threading
+
+    ensure_tables(ctx)
 
     rng = ctx.rng
     side_err = []
